@@ -66,6 +66,21 @@ fn main() {
                 d.fs.set_script(script);
             }
             let o = match (&r.schedule, last) {
+                (Some(sch), true) if r.check.starts_with("C04/thread") => {
+                    // thread-level schedule on the real ThreadedScheduler: replay setup on a ThrDriver
+                    let mut td = vharness::thr::ThrDriver::new();
+                    for (_, s0) in &r.steps[..n - 1] {
+                        let _ = td.q_free(s0);
+                    }
+                    let obs = td.run(sql, sch, r.check.ends_with("+cancel"));
+                    if let Some(dv) = &obs.diverged {
+                        println!("  schedule diverged: {dv}");
+                    }
+                    if let Some((c, det)) = vharness::thr::check_log(&obs.log) {
+                        println!("  task state machine: {c}: {det}");
+                    }
+                    obs.outcome
+                }
                 (Some(sch), true) => {
                     let mut ps = vharness::sched::PrefixSched { prefix: sch, enabled_log: vec![], parked_log: vec![], diverged: None };
                     let out = d.run(*sess, sql, &mut ps).outcome;
@@ -132,6 +147,49 @@ fn main() {
             println!("  VIOL {} sched={:?} expected={} observed={}", v.class, v.schedule, v.expected, v.observed);
         }
         println!("  samples: {:?}", r.sample_schedules);
+        return;
+    }
+    if args.len() >= 3 && args[1] == "thr" {
+        // vcheck thr <query> [--setup s]... [--pre N] [--cancel 1] [--threads N] [--wall S]
+        let mut shape = vharness::sched::Shape::new("cli", &[], &args[2]);
+        let mut cfg = vharness::thr::ThrCfg { max_dev: 2, max_preempt: 1, wall_cap: std::time::Duration::from_secs(120), exec_cap: u64::MAX, threads: vharness::infra::threads(), with_cancel: false };
+        let mut i = 3;
+        while i + 1 < args.len() {
+            match args[i].as_str() {
+                "--setup" => shape.setup.push(args[i + 1].clone()),
+                "--perrun" => shape.per_run.push(args[i + 1].clone()),
+                "--observe" => shape.observe.push(args[i + 1].clone()),
+                "--pre" => cfg.max_preempt = args[i + 1].parse().unwrap(),
+                "--dev" => cfg.max_dev = args[i + 1].parse().unwrap(),
+                "--cancel" => cfg.with_cancel = args[i + 1] == "1",
+                "--threads" => cfg.threads = args[i + 1].parse().unwrap(),
+                "--wall" => cfg.wall_cap = std::time::Duration::from_secs(args[i + 1].parse().unwrap()),
+                _ => {}
+            }
+            i += 2;
+        }
+        let t = std::time::Instant::now();
+        let r = vharness::thr::explore(&shape, &cfg);
+        println!("executions={} decisions={} max_len={} max_threads={} tasks={} outcomes={} task_traces={} complete={} violations={} cancel(err/late)={}/{} machinery={:?} in {:.2}s", r.executions, r.decisions, r.max_len, r.max_threads, r.n_tasks, r.distinct_outcomes, r.distinct_task_traces.len(), r.complete, r.violations.len(), r.cancel_error_runs, r.cancel_late_runs, r.machinery, t.elapsed().as_secs_f64());
+        for v in r.violations.iter().take(5) {
+            println!("  VIOL {} sched={:?} expected={} observed={}", v.class, v.schedule, v.expected, v.observed);
+        }
+        for t in r.distinct_task_traces.keys().take(6) {
+            println!("  trace: {}", t.iter().map(|x| x.0).collect::<Vec<_>>().join(" "));
+        }
+        println!("  sample: {:?}", r.sample);
+        match vharness::tlc::load_graph() {
+            Ok(g) => {
+                let mut c = vharness::tlc::Conformance::default();
+                for t in r.distinct_task_traces.keys() {
+                    if let Err(e) = g.accept(t, &mut c) {
+                        println!("  NOT IN MODEL: {e}");
+                    }
+                }
+                println!("  model: {} states {} edges ({}); impl traces accepted {} ; model states witnessed {} edges witnessed {}; unwitnessed actions {:?}", g.states.len(), g.n_edges(), g.tlc_summary, c.traces, c.visited_states.len(), c.visited_edges.len(), g.unwitnessed_actions(&c));
+            }
+            Err(e) => println!("  TLC: {e}"),
+        }
         return;
     }
     if args.len() >= 2 && args[1] == "terms" {
